@@ -469,7 +469,7 @@ def replay_coll(d):
 
 # ---------------------------------------------------------------------------------------------- len(g.members) / count(g.members)
 # (coq/Model/C01Len.v)  query = (ws, hs, proj): ws plain conditions over g, hs conditions that mention 'group.cnt' = len(g.members)
-# (no top-level `and` in an hs item, so that each becomes one HAVING condition)
+# (no top-level `and` in an hs item, so that each becomes one HAVING condition); since repo commit 809623a every such item lands in HAVING
 
 LEN_HEADER = COLL_HEADER.replace('PonyV.Model.C01Coll.', 'PonyV.Model.C01Coll PonyV.Model.C01Len.')
 
@@ -652,16 +652,7 @@ def _has_inline_count(x):
 def len_raises(ws, hs, proj, params, graph, fn, ex):
     """The database rejected the statement although every part is typed and Python evaluates the comprehension."""
     if type(ex).__name__ not in ('OperationalError', 'ProgrammingError', 'DatabaseError'): return None
-    from pony import orm
-    db, P, G, D = J.get_db('sqlite')
     key = 'unlisted:collection:len-raises:%s' % type(ex).__name__
-    try:
-        with orm.db_session:
-            t = orm.select(len_qsrc(ws, hs, proj, fn)[len('select('):-1], query_globals(G, params))._translator
-            # known only for the recorded cause: an *integer* value that mentions the count, tested for truth
-            if any(_has_inline_count(c) for c in t.conditions) and any(L.ty_of(e) == 'int' for e in hs): key = 'aggregate-truth-test-lands-in-where'
-    except Exception:
-        pass
     what = '%s with %s: the database rejects the statement (%s: %s); Python evaluates the comprehension' % (
         len_qsrc(ws, hs, proj, fn), {('x%d' % i): v for i, v in sorted(params.items())}, type(ex).__name__, str(ex)[:80])
     g = graph['G'][0]
@@ -705,3 +696,310 @@ def replay_len(d):
     if not bad: return None
     g, mode, got, want = bad[0]
     return len_failure(ws, hs, proj, params, d['graph'], g, mode, got, want, d.get('fn', 'len'))
+
+
+# ---------------------------------------------------------------------------------------------- formulas over subquery conditions
+# (coq/Model/C01Form.v)  query = (subs, filt, proj, params): subs[k] describes column 40 + k:
+#     ('exists', c)   ('in', v, attr, form, c)   ('count', c)
+# filt is a c01_lib expression over g's attributes, the leaves ('sub', 40 + k) (exists / in) and the attributes 'group.q<40 + k>' (count)
+
+FORM_HEADER = COLL_HEADER.replace('PonyV.Model.C01Coll.', 'PonyV.Model.C01Coll PonyV.Model.C01Form.')
+SUB_BASE = 40
+
+
+def sub_src(x):
+    k = x[0]
+    if k == 'exists': return 'g.members' if x[1] is None else 'exists(m for m in g.members if %s)' % esrc(x[1])
+    if k == 'in':
+        v, a, form, c = x[1:]
+        coll = 'g.members.%s' % a if form == 'attr' else '(m.%s for m in g.members%s)' % (a, '' if c is None else ' if ' + esrc(c))
+        return '(%s in %s)' % (esrc(v), coll)
+    if k == 'count': return count_src(x[1])
+    raise ValueError(k)
+
+
+def fsrc(e, subs):
+    s = L.src(e)
+    for k in reversed(range(len(subs))):
+        s = s.replace('p.group.s%d' % (SUB_BASE + k), sub_src(subs[k])).replace('p.group.q%d' % (SUB_BASE + k), sub_src(subs[k]))
+    return s.replace('p.group.', 'g.').replace('p.', 'm.')
+
+
+def form_qsrc(subs, filt, proj):
+    return 'select(%s for g in G if %s)' % ('(g.id, %s)' % esrc(proj) if proj is not None else 'g.id', fsrc(filt, subs))
+
+
+def sub_coq(x):
+    k = x[0]
+    if k == 'exists': return '(SQExists %s)' % copt(x[1])
+    if k == 'count': return '(SQCount %s)' % copt(x[1])
+    v, a, form, c = x[1:]
+    i, t, n = L.ATTRS[a]
+    return '(SQIn %s (mkattr %d %s %s) %s)' % (L.coq(v), i, L._VTY[t], cb(n), 'SAttr' if form == 'attr' else '(SGen %s)' % copt(c))
+
+
+def subs_json(subs):
+    out = []
+    for x in subs:
+        if x[0] in ('exists', 'count'): out.append([x[0], None if x[1] is None else L.to_json(x[1])])
+        else: out.append(['in', L.to_json(x[1]), x[2], x[3], None if x[4] is None else L.to_json(x[4])])
+    return out
+
+
+def subs_from_json(js):
+    f = lambda c: None if c is None else L.from_json(c)
+    return [(x[0], f(x[1])) if x[0] in ('exists', 'count') else ('in', L.from_json(x[1]), x[2], x[3], f(x[4])) for x in js]
+
+
+def _form_hook(alias, name):
+    if alias == '#': return int(name[1:])
+    return _hook(alias, name)
+
+
+def _lift_subs(x, xs):
+    """Replace the subquery nodes of a condition AST by pseudo columns (pre-order), appending their Coq xsub terms to xs."""
+    if isinstance(x, (list, tuple)) and x and x[0] != 'PARAM':
+        t = x[0]
+        if t in ('EXISTS', 'NOT_EXISTS') and len(x) == 3:
+            col = ['COLUMN', '#', 's%d' % (SUB_BASE + len(xs))]
+            xs.append('(XSExists %s)' % _sub_term(x[1], x[2]))
+            return col if t == 'EXISTS' else ['NOT', col]
+        if t in ('IN', 'NOT_IN') and len(x) == 3 and x[2] and x[2][0] == 'SELECT':
+            sel = x[2]
+            if len(sel) != 4 or sel[1][0] != 'ALL' or len(sel[1]) != 2: raise L.Unmodelled('IN subquery %r' % (sel[1],))
+            col = ['COLUMN', '#', 's%d' % (SUB_BASE + len(xs))]
+            xs.append('(XSIn %s %s %s)' % (L.qx(x[1]), L.qx(sel[1][1]), _sub_term(sel[2], sel[3])))
+            return col if t == 'IN' else ['NOT', col]
+        if _is_count_select(x):
+            col = ['COLUMN', '#', 'q%d' % (SUB_BASE + len(xs))]
+            xs.append('(XSCount %s)' % _sub_term(x[2], x[3]))
+            return col
+        return [_lift_subs(y, xs) for y in x]
+    return x
+
+
+def form_translate(provider, subs, filt, proj, params):
+    """-> (xsub list term, conditions term, column term or None, sql, dump)"""
+    from pony import orm
+    db, P, G, D = J.get_db(provider)
+    src = form_qsrc(subs, filt, proj)[len('select('):-1]
+    with orm.db_session:
+        q = orm.select(src, query_globals(G, params))
+        t = q._translator
+        fa = t.sqlquery.from_ast
+        if fa[0] != 'FROM' or len(fa) != 2 or fa[1][2].upper() != 'G' or t.having_conditions or t.groupby_monads:
+            raise L.Unmodelled('outer FROM %r / grouping' % (L.strip_ast(fa),))
+        L.COLUMN_HOOK[0] = _form_hook
+        try:
+            xs = []
+            conds = '[%s]' % '; '.join(L.qx(_lift_subs(c, xs)) for c in t.conditions)
+            col = L.qx(t.expr_columns[1]) if proj is not None else None
+        finally:
+            L.COLUMN_HOOK[0] = None
+        return '[%s]' % '; '.join(xs), conds, col, q.get_sql(), L.strip_ast([fa, t.conditions, t.expr_columns])
+
+
+def form_run(real, subs, filt, proj, params, raw=False):
+    orm = real.orm
+    src = form_qsrc(subs, filt, proj)[len('select('):-1]
+    with orm.db_session:
+        q = orm.select(src, query_globals(real.G, params))
+        if raw:
+            sql, arguments, _, _ = q._construct_sql_and_arguments()
+            rows = [tuple(r) for r in real.db._exec_sql(sql, arguments).fetchall()]
+        else:
+            rows = list(q)
+    if proj is None: rows = [(r if not isinstance(r, tuple) else r[0], None) for r in rows]
+    return sorted(rows, key=lambda r: r[0])
+
+
+def sub_value(graph, g, x, params):
+    """Python value of a subquery for g: bool (exists), True / False / None = unknown (in), int (count)."""
+    k = x[0]
+    if k == 'exists': return bool(selected(graph, g, x[1], params))
+    if k == 'count': return len(selected(graph, g, x[1], params))
+    v, a, form, c = x[1:]
+    try: val = L.ref(v, g_row(g), params, False)
+    except L.RefError: raise Skip()
+    items = [m[a] for m in selected(graph, g, c if form == 'gen' else None, params) if m[a] is not None]
+    if val is None: return None if items else False
+    return val in items
+
+
+def form_row(graph, g, subs, params):
+    row = g_row(g)
+    for k, x in enumerate(subs):
+        v = sub_value(graph, g, x, params)
+        row['group.%s%d' % ('q' if x[0] == 'count' else 's', SUB_BASE + k)] = v
+    return row
+
+
+def check_form_query(real, subs, filt, proj, params):
+    import c01_harness as H
+    graph = real.graph
+    got = dict(form_run(real, subs, filt, proj, params))
+    bad = []
+    for g in graph['G']:
+        try:
+            row = form_row(graph, g, subs, params)
+            keep = _keeps(filt, row, params)
+            want = None
+            if proj is not None:
+                if 'zero-division' in L.hazards(proj, row, params): continue
+                want = L.ref(proj, row, params, False)
+        except (Skip, L.RefError):
+            continue
+        if keep != (g['id'] in got): bad.append((g, 'filter', g['id'] in got, keep))
+        elif keep and proj is not None and not H.same_value(got[g['id']], want): bad.append((g, 'project', got[g['id']], want))
+    return bad
+
+
+def form_failure(subs, filt, proj, params, graph, g, mode, got, want):
+    import c01_harness as H
+    key = None
+    try:
+        row = form_row(graph, g, subs, params)
+        e = proj if mode == 'project' else filt
+        k = H.classify(e, row, params, mode)
+        try: differs = (L.keeps(e, row, params, False) != L.keeps(e, row, params, True)) if mode == 'filter' else (L.ref(e, row, params, False) != L.ref(e, row, params, True))
+        except L.RefError: differs = False
+        if differs or not k.startswith('unlisted'): key = k
+        if key is None:
+            for x in subs:
+                for c in [y for y in (x[1] if x[0] != 'in' else x[4], x[1] if x[0] == 'in' else None) if y is not None]:
+                    rows = [g_row(g)] if (x[0] == 'in' and c is x[1]) else [m_row(g, m) for m in members(graph, g)]
+                    for r in rows:
+                        k = H.classify(c, r, params, 'filter')
+                        try: differs = L.keeps(c, r, params, False) != L.keeps(c, r, params, True)
+                        except L.RefError: differs = False
+                        if differs or not k.startswith('unlisted'): key = key or k
+    except Skip:
+        pass
+    if key is None: key = 'unlisted:collection:formula'
+    what = '%s with %s on group %s with members %s: Pony gives %r, the comprehension gives %r' % (
+        form_qsrc(subs, filt, proj), {('x%d' % i): v for i, v in sorted(params.items())}, g, [m['id'] for m in members(graph, g)], got, want)
+    return Failure(key, what, {'form': {'subs': subs_json(subs), 'filt': L.to_json(filt), 'proj': L.to_json(proj) if proj is not None else None,
+                                        'params': {str(i): v for i, v in params.items()}, 'graph': minimal_graph(graph, g)}})
+
+
+def gen_formula(rng, g_in, g_out, depth, subs):
+    """A condition over new subquery leaves (numbered in source order) and g's attributes."""
+    def inner(): return g_in.filter_expr(rng.choice((2, 2, 3)))
+    def new_col(x):
+        subs.append(x); return SUB_BASE + len(subs) - 1
+    r = rng.random()
+    if depth <= 1 or r < 0.3 or len(subs) >= 5:
+        kind = rng.choice(('exists', 'exists', 'in', 'in', 'count', 'plain')) if len(subs) < 6 else 'plain'
+        if kind == 'plain': return _gen_outer(g_out, rng, lambda: g_out.cond(2))
+        if kind == 'exists': return ('sub', new_col(('exists', inner() if rng.random() < 0.7 else None)))
+        if kind == 'in':
+            a = rng.choice(ITEM_ATTRS); t = L.ATTRS[a][1]
+            v = _gen_outer(g_out, rng, lambda: g_out.value(t, rng.choice((1, 1, 2)), rng.random() < 0.7))
+            form = 'attr' if rng.random() < 0.25 else 'gen'
+            return ('sub', new_col(('in', v, a, form, inner() if form == 'gen' and rng.random() < 0.4 else None)))
+        col = None
+        other = _gen_outer(g_out, rng, lambda: g_out.value('int', rng.choice((1, 1, 2)), False))      # generated before the count so that the numbering stays in source order
+        col = new_col(('count', inner() if rng.random() < 0.6 else None))
+        return ('cmp', rng.choice(L.CMPS[:6]), ('attr', 'group.q%d' % col), other)
+    f = rng.choice(('not', 'and', 'or', 'or', 'not'))
+    if f == 'not': return ('not', gen_formula(rng, g_in, g_out, depth - 1, subs))
+    a = gen_formula(rng, g_in, g_out, depth - 1, subs)
+    b = gen_formula(rng, g_in, g_out, depth - 1, subs)
+    return (f, a, b)
+
+
+S40 = ('sub', 40); S41 = ('sub', 41)
+FORM_HANDMADE = [
+    ([('exists', None)], ('not', S40), None),
+    ([('exists', ('attr', 'f')), ('exists', ('cmp', '>', ('attr', 'a'), ('attr', 'group.level')))], ('or', S40, ('not', S41)), None),
+    ([('in', ('attr', 'group.level'), 'a', 'gen', None)], ('not', S40), None),
+    ([('in', ('attr', 'group.level'), 'a', 'gen', None), ('exists', None)], ('not', ('or', S40, ('not', S41))), ('attr', 'group.number')),
+    ([('in', ('attr', 'group.title'), 's', 'attr', None)], ('or', ('not', S40), ('cmp', '>', ('attr', 'group.number'), ('int', 1))), None),
+    ([('count', None), ('exists', ('attr', 'g'))], ('and', ('or', ('cmp', '>', ('attr', 'group.q40'), ('int', 2)), S41), ('cmp', 'is not', ('attr', 'group.level'), ('none',))), None),
+    ([('in', ('attr', 'group.number'), 'r', 'gen', ('attr', 'g')), ('in', ('attr', 'group.level'), 'b', 'gen', None)], ('not', ('and', S40, S41)), None),
+    ([('count', ('cmp', '>', ('attr', 'a'), ('int', 0))), ('count', None)], ('cmp', '<', ('attr', 'group.q40'), ('attr', 'group.q41')), None),
+]
+
+
+def gen_form_queries(ctx, n):
+    rng = ctx.rng
+    g_in = L.Gen(rng, pools=INNER_POOLS); g_out = L.Gen(rng, pools=OUTER_POOLS)
+    out = [(s, f, p, {}) for s, f, p in FORM_HANDMADE]
+    while len(out) < n + len(FORM_HANDMADE):
+        g_in.reset(); g_out.params, g_out.ptypes = g_in.params, g_in.ptypes
+        subs = []
+        try: filt = gen_formula(rng, g_in, g_out, rng.choice((2, 3, 3)), subs)
+        except RuntimeError: continue
+        if not subs: continue
+        proj = _gen_outer(g_out, rng, lambda: g_out.value(rng.choice(('int', 'str')), rng.choice((1, 2)), True)) if rng.random() < 0.25 else None
+        out.append((subs, filt, proj, dict(g_in.params)))
+    return out
+
+
+def form_cases(ctx, queries, real):
+    """Subquery list + conditions (subqueries as pseudo columns; NOT EXISTS / NOT IN read as NOT (..)) + column on four providers vs the
+    model; the rows real SQLite returns vs sql_form_rows."""
+    import c01_harness as H
+    exprs, meta, dis, nontriv = [], [], [], set()
+    dist = {'conditions': 0, 'columns': 0, 'sqlite_result_lists': 0, 'translator_raises': 0, 'subqueries': {}}
+    for subs, filt, proj, params in queries:
+        for x in subs: dist['subqueries'][x[0]] = dist['subqueries'].get(x[0], 0) + 1
+        subs_term = '[%s]' % '; '.join(sub_coq(x) for x in subs)
+        for prov in ('sqlite', 'postgres', 'mysql', 'oracle'):
+            if prov == 'oracle' and any(v == '' for v in params.values()): continue
+            inp = {'provider': prov, 'query': form_qsrc(subs, filt, proj), 'params': params}
+            try:
+                xs, conds, col, sql, dump = form_translate(prov, subs, filt, proj, params)
+            except L.Unmodelled as ex:
+                dis.append({'what': 'formula query outside the modelled shapes: %s' % ex, 'input': inp}); continue
+            except Exception as ex:
+                dist['translator_raises'] += 1
+                dis.append({'what': 'the real translator raised on a typed formula query', 'input': inp, 'impl': '%s: %s' % (type(ex).__name__, str(ex)[:200])}); continue
+            d = L.DN[prov]
+            m = dict(inp, impl=dump)
+            exprs.append('oxsubs_eqb (tr_subqs %s %s) %s && oqxs_eqb (tr_filter %s %s) (Some %s)' % (d, subs_term, xs, d, L.coq(filt), conds))
+            meta.append(dict(m, mode='formula-conditions')); dist['conditions'] += 1
+            if proj is not None:
+                exprs.append('oqx_eqb (tr_project %s %s) (Some %s)' % (d, L.coq(proj), col)); meta.append(dict(m, mode='formula-columns')); dist['columns'] += 1
+            nontriv.add((prov, form_qsrc(subs, filt, proj)))
+            if prov == 'sqlite':
+                try:
+                    rows = form_run(real, subs, filt, proj, params, raw=True)
+                except Exception as ex:
+                    dis.append({'what': 'real SQLite raised on a formula query', 'input': inp, 'impl': '%s: %s' % (type(ex).__name__, ex)}); continue
+                got = '[%s]' % '; '.join(H.coq_qv(v) if proj is not None else '(IntV %d)' % i for i, v in rows)
+                exprs.append('%s (sql_form_rows DSqlite %s DB false %s %s %s) %s' % (J.QVS_EQB, L._coq_fn(list(params.items())), xs, conds, col if proj is not None else '(QCol 10)', got))
+                meta.append(dict(m, mode='formula-rows', impl=rows, sql=sql)); dist['sqlite_result_lists'] += 1
+    return exprs, meta, dis, nontriv, dist
+
+
+def form_search(ctx, queries, real, max_per_key=1):
+    failures, seen, evals, nontriv = [], {}, 0, set()
+    dist = {'queries': 0, 'pony_raises': {}, 'failing_groups_by_key': seen}
+    for subs, filt, proj, params in queries:
+        dist['queries'] += 1
+        try:
+            bad = check_form_query(real, subs, filt, proj, params)
+        except Exception as ex:
+            n = type(ex).__name__; dist['pony_raises'][n] = dist['pony_raises'].get(n, 0) + 1; continue
+        evals += len(real.graph['G'])
+        if not bad: nontriv.add(form_qsrc(subs, filt, proj))
+        for g, mode, got, want in bad:
+            f = form_failure(subs, filt, proj, params, real.graph, g, mode, got, want)
+            seen[f.key] = seen.get(f.key, 0) + 1
+            if seen[f.key] <= max_per_key: failures.append(f)
+    return evals, failures, nontriv, dist
+
+
+def replay_form(d):
+    subs = subs_from_json(d['subs']); filt = L.from_json(d['filt'])
+    proj = L.from_json(d['proj']) if d['proj'] is not None else None
+    params = {int(k): v for k, v in d['params'].items()}
+    real = J.RealGraph(d['graph'])
+    try:
+        bad = check_form_query(real, subs, filt, proj, params)
+    except Exception:
+        return None
+    if not bad: return None
+    g, mode, got, want = bad[0]
+    return form_failure(subs, filt, proj, params, d['graph'], g, mode, got, want)
